@@ -140,3 +140,8 @@ Definition dyncfg_linear (K : Fld) (fsqrt : K -> K) (two_pi : K) (env : string -
 Definition dyncfg_sinusoidal (K : Fld) (fsqrt : K -> K) (two_pi : K) (env : string -> K) : dyncfg K :=
   mkDC (dyn_sinusoidal_phasenoise K fsqrt env) (dyn_sinusoidal_amplnoise K fsqrt env)
        (dyn_sinusoidal_modampl K env) (dyn_sinusoidal_modtimedelta K two_pi env).
+
+(** constructor forwarding evaluated symbolically (every argument is its own name): what the
+    check prints with vm_compute and compares with the members of the implementation's objects *)
+Definition dyn_base_sym (lin : bool) : option (nat * list (string * fval string)) :=
+  dyn_base rfkick_ctors (if lin then dyn_linear else dyn_sinusoidal) (fun s => s).
